@@ -190,6 +190,19 @@ def run(tier: str, seed: int) -> int:
                        '3 items, tables <= 4 (5 thorough), sub-lists <= 3, every transition replayed; 2592 enumerated worlds + '
                        'seeded random worlds on 6 layouts; 13 static prop formats; 23 boundary values per integer field')
         sigs = model_sigs + [sig_of(m) for m in allm]
+        # the deferred-offset writer every binary writer relies on (binformat.DeferredWrites)
+        from props import sub_deferred
+        dw = sub_deferred.collect(tier, seed, work)
+        cov['states'] += dw['cov']['states']
+        cov['transitions'] += dw['cov']['transitions']
+        cov['models'].update(dw['cov']['models'])
+        for k in ('deferred_actions', 'deferred_model_edges', 'deferred_records'):
+            cov[k] = dw['cov'][k]
+        cov['traces_validated_against_impl'] += dw['records']
+        cov['records_validated'] += dw['records']
+        cov['samples'] = samples + dw['samples'][:1]
+        sigs += dw['sigs']
+        cov['mismatches'] = len(sigs)
         known, new = core.classify(PROP, sigs)
         return core.finish(PROP, tier=tier, seed=seed, t0=t0, coverage=cov, known=known, new=new, assumptions=ASSUMPTIONS)
     finally:
